@@ -198,7 +198,7 @@ Failed(g, c) ==
              a == RealOf(c.after)
              nb == NLOf(c.before)       \* the non-local rows
              na == NLOf(c.after)
-             v == View(c)
+             v == [c EXCEPT !.before = b, !.after = a]
          IN Pick(Aligned(c.after), "Aligned")
             \cup Pick(NLBase(nb, na, b, a), "NonLocalRows")
             \cup
